@@ -176,6 +176,72 @@ def json_roundtrip(rng, n):
     return lines
 
 
+class RawProc(t3.Proc):
+    """a process whose command pattern is given literally (outputs that are directories, say)"""
+    def __init__(self, name, rawpat, **kw):
+        t3.Proc.__init__(self, name, **kw)
+        self.rawpat = rawpat
+
+    def pattern(self):
+        return self.rawpat
+
+
+def dir_output_case(args):
+    """a task whose output is a directory; the final output and its audit file are deleted and the workflow is run again
+    (everything upstream is taken from disk): the new record equals the old one up to IDs and times, and the ancestor's
+    audit file on disk is untouched"""
+    seed, i = args
+    rng = random.Random(seed * 413158523 + i)
+    sp = t3.Spec(maxtasks=rng.randint(1, 3), bufsize=rng.choice([1, 128]))
+    L = rng.randint(1, 3)
+    paths = ["d%d.txt" % j for j in range(L)]
+    for p in paths:
+        sp.files[p] = p + "\n"
+    s = sp.src("src", paths)
+    a = sp.proc(RawProc("unpack", "mkdir {o:parts} && cp {i:a} {o:parts}/part1.txt && echo extra > {o:parts}/part2.txt",
+                        ins=[("a", [(s, "out")])], outs=[("parts", "{i:a}.parts")]))
+    b = sp.proc(RawProc("collect", "cat {i:d}/part1.txt {i:d}/part2.txt > {o:o}", ins=[("d", [(a, "parts")])], outs=[("o", "{i:d}.collected")]))
+    if rng.random() < 0.5:
+        sp.proc(RawProc("final", "cat {i:c} > {o:o}", ins=[("c", [(b, "o")])], outs=[("o", "{i:c}.final")]))
+        last = ".parts.collected.final"
+    else:
+        last = ".parts.collected"
+    sc = t3.Scratch()
+    try:
+        sc.plant(sp.files)
+        r1 = t3.run_impl(sc, sp)
+        problems = []
+        if r1["rc"] != 0:
+            return {"spec": sp.text(), "bufsize": sp.bufsize, "problems": [("unexpected-failure", r1["stderr"][-200:])], "ntasks": L, "rc": r1["rc"], "stderr": r1["stderr"][-200:], "yield": None, "wall": r1["wall"], "mode": "dir-output", "point": None}
+        first, disk = {}, {}
+        for p in paths:
+            v = r1["fs"].get(p + last + ".audit.json")
+            first[p] = t3.audit_norm(json.loads(v[1])) if v and v[0] == "f" else None
+            w = r1["fs"].get(p + ".parts.audit.json")
+            disk[p] = w[1] if w else None
+            for suffix in ("", ".audit.json"):
+                try:
+                    os.remove(os.path.join(sc.work, p + last + suffix))
+                except OSError:
+                    pass
+        r2 = t3.run_impl(sc, sp)
+        if r2["rc"] != 0:
+            problems.append(("resume-fails", "the resumed run exits %s: %s" % (r2["rc"], r2["stderr"][-200:])))
+        for p in paths:
+            v = r2["fs"].get(p + last + ".audit.json")
+            second = t3.audit_norm(json.loads(v[1])) if v and v[0] == "f" else None
+            if first[p] is None or second != first[p]:
+                problems.append(("lineage-differs", "the record of %s after the resumed run differs from the uninterrupted run's: %s vs %s" % (
+                    p + last, json.dumps(second, sort_keys=True)[:400], json.dumps(first[p], sort_keys=True)[:400])))
+            w = r2["fs"].get(p + ".parts.audit.json")
+            if (w[1] if w else None) != disk[p]:
+                problems.append(("ancestor-record-changed", "the audit file of the directory output %s.parts changed on disk during the resumed run" % p))
+        return {"spec": sp.text(), "bufsize": sp.bufsize, "problems": problems[:4], "ntasks": L, "rc": r2["rc"], "stderr": r2["stderr"][-200:], "yield": None, "wall": r1["wall"],
+                "mode": "dir-output", "point": None}
+    finally:
+        sc.close()
+
+
 def run(rep, tier, seed):
     proved = vlib.prove(rep, MODULE, THEOREMS) if THEOREMS else True
     ok, msg = vlib.build_ocaml()
@@ -199,6 +265,7 @@ def run(rep, tier, seed):
             cases.append((seed, i + 1000 * k, "runto", None))
             cases.append((seed, i + 1000 * k, "delete", None))
     results = [r for r in t3.run_many(case, cases) if r]
+    results += t3.run_many(dir_output_case, [(seed, i) for i in range(6 if tier == "quick" else 80)])
     found = t3.report_t3(rep, MODULE, proved, results, "T3 resumed histories: audit lineage vs the uninterrupted run")
     jl = json_roundtrip(rng, 300 if tier == "quick" else 5000)
     diffs, impl, model = vlib.t2_compare("json", jl)
